@@ -159,9 +159,11 @@ def classify(case, verdict, eng_out):
     """finding key: join kind + operand count + structure class + what goes wrong (+ body clause when values differ)."""
     what = verdict.split(':', 1)[1]
     if case.get('kind') == 'full' and case.get('nops', 0) >= 3 and (
-            what == 'engine-duplicate-keys' or (full_nary_pattern(case) and what in ('keys', 'value'))):
-        # duplicated identifiers out of an n-ary full join (operands may be expressions, so the data pattern is only
-        # required for the other symptoms)
+            what == 'engine-duplicate-keys' or
+            ((full_nary_pattern(case) or case.get('variant') == 'operand-expression') and what in ('keys', 'value'))):
+        # duplicated identifiers out of an n-ary full join; for the other symptoms (a body filter removed one of the
+        # duplicates) the data pattern is required, except when an operand is an expression (the pattern is evaluated
+        # on the input data, not on the operand's value)
         return 'full_join:n-ary:key-absent-from-first-operand-present-in-two-later-operands'
     body_l = case.get('body') or []
     if 'apply' in body_l and ('rename' in body_l or 'drop' in body_l) and (
